@@ -15,9 +15,9 @@
    `{"type":"object","additionalProperties":{}}`; constant references, intersections and kinds
    without payload fall through formatType's switch and are `{}`; foreign objects are stored under
    their BARE name (a later definition of the same name replaces the earlier one, in place);
-   the foreign-object loop has no visited set (a foreign object that refers to an object of its own
-   package is collected again on every round: a recursive foreign type never lets the loop end --
-   `OutOfFuel` here). *)
+   the foreign-object loop remembers the SelfRef strings it has converted (since the fix of
+   C12-foreign-recursive-type-hangs): every round but the last converts an object not seen before, so
+   `emit_fuel` rounds suffice (Props/C12.v emitter_returns). *)
 From Coq Require Import List String ZArith Bool Ascii.
 From Cog Require Import Model.IR Model.Json Model.GoSemBase.
 Import ListNotations.
@@ -207,16 +207,23 @@ Definition collect_foreign (ctx : schemas) (pkg : string) (os : list object) : l
 Definition set_definitions (defs : list (string * jdef)) (os : list object) : list (string * jdef) :=
   fold_left (fun acc o => om_set acc (o_name o) (object_to_definition o)) os defs.
 
-Fixpoint foreign_loop (ctx : schemas) (pkg : string) (fuel : nat) (defs : list (string * jdef))
-         (pending : list (string * object)) : res (list (string * jdef)) :=
+(* the loop over foreign objects of GenerateSchema, with its `converted` set (SelfRef strings of the foreign
+   objects already turned into definitions): an object collected again is skipped, so a foreign type that
+   refers to itself is converted once and the loop ends *)
+Definition not_converted (visited : list string) (pending : list (string * object)) : list (string * object) :=
+  filter (fun ko => negb (str_in (fst ko) visited)) pending.
+
+Fixpoint foreign_loop (ctx : schemas) (pkg : string) (fuel : nat) (visited : list string)
+         (defs : list (string * jdef)) (pending : list (string * object)) : res (list (string * jdef)) :=
   match pending with
   | [] => Ok defs
   | _ =>
       match fuel with
       | O => OutOfFuel
       | S f =>
-          let os := map snd pending in
-          foreign_loop ctx pkg f (set_definitions defs os) (collect_foreign ctx pkg os)
+          let todo := not_converted visited pending in
+          let os := map snd todo in
+          foreign_loop ctx pkg f (visited ++ map fst todo) (set_definitions defs os) (collect_foreign ctx pkg os)
       end
   end.
 
@@ -225,13 +232,13 @@ Record jdoc := mkJDoc { jd_entry : option (string * string) ; jd_defs : list (st
 (* GenerateSchema *)
 Definition emit_schema (ctx : schemas) (fuel : nat) (s : schema) : res jdoc :=
   let os := map snd (s_objects s) in
-  match foreign_loop ctx (s_pkg s) fuel (set_definitions [] os) (collect_foreign ctx (s_pkg s) os) with
+  match foreign_loop ctx (s_pkg s) fuel [] (set_definitions [] os) (collect_foreign ctx (s_pkg s) os) with
   | Ok defs => Ok (mkJDoc (if seqb (s_entry s) "" then None else Some (s_pkg s, s_entry s)) defs)
   | Err e => Err e | Panic w => Panic w | OutOfFuel => OutOfFuel
   end.
 
-(* enough rounds for every terminating run: each round that does not end the loop must bring a
-   foreign object not seen before, or the same set again (then it never ends) *)
+(* enough rounds for every run: each round converts a foreign object not converted before, except the
+   last two (nothing left to convert; nothing collected) *)
 Definition emit_fuel (ctx : schemas) : nat := S (S (count_objects ctx)).
 
 (* ---------- rendering ---------- *)
